@@ -75,6 +75,9 @@ def _wp_pairs():
 def items(tier, seed):
     import bluesky.consolidators  # noqa: F401 - imported before the pool forks so that workers inherit it (3.5 s per import)
 
+    import gc
+
+    gc.freeze()  # keep the forked workers' collector off the parent's heap (fewer copy-on-write faults)
     return [{"tier": tier, "width": w, "prec": p} for (w, p) in _wp_pairs()]
 
 
